@@ -204,6 +204,14 @@ class OpenModel:
         for n in nexts:
             e = ("okval", strip_ids(("call", cpath(g.term(n)), tuple(event_args(g, n)))))
             for fo in self.file_opens:
+                # the loop that takes the chunk id lives in a function that (transitively) calls the one opening the file - not in some
+                # helper that merely formats the path
+                anc, i_ = set(), g.inst(fo)
+                while i_ is not None:
+                    anc.add(i_.id)
+                    i_ = i_.parent
+                if n[0] not in anc:
+                    continue
                 if contains(strip_ids(event_args(g, fo)[1]) if len(event_args(g, fo)) > 1 else (), lambda x: x == e):
                     if n not in self.chunk_next:
                         self.chunk_next.append(n)
